@@ -658,6 +658,75 @@ fn blocks_case(files: &[(&str, Vec<&str>)], style: u8, dir: &Path) -> Result<(),
     }
 }
 
+/// A script started through a RELATIVE path, with includes that climb above the working directory:
+/// every relative include is resolved against the directory of the file that holds the directive (files
+/// of the same name sit in the working directory and between, with other contents).
+fn relative_invocation(w: &mut Worker) {
+    let top: PathBuf = w.scratch.join("c14-rel");
+    let mk = |rel: &str, text: &str| {
+        let p = top.join(rel);
+        let _ = std::fs::create_dir_all(p.parent().unwrap());
+        std::fs::write(p, text).expect("write");
+    };
+    let _ = std::fs::remove_dir_all(&top);
+    mk("shared.ds", "where = set two_levels_up");
+    mk("work/shared.ds", "where = set one_level_up");
+    mk("work/run/shared.ds", "where = set working_directory");
+    mk("lib/a.ds", "!include_files ../shared.ds\nvia = set lib");
+    mk("lib/shared.ds", "where = set lib_directory");
+    mk("work/run/sub/deep.ds", "!include_files ../../../shared.ds\nvia = set deep");
+    mk("work/run/main.ds", "!include_files ../../shared.ds\ndone = set yes");
+    mk("work/run/chain.ds", "!include_files ../../lib/a.ds\ndone = set yes");
+    mk("work/run/down_up.ds", "!include_files ./sub/deep.ds\ndone = set yes");
+    mk("work/run/one_up.ds", "!include_files ../shared.ds\ndone = set yes");
+    mk("work/run/zigzag.ds", "!include_files ../run/../../work/../shared.ds\ndone = set yes");
+    let before = std::env::current_dir().ok();
+    let cases: [(&str, &str, &str); 12] = [
+        ("work/run", "main.ds", "two_levels_up"),
+        ("work/run", "./main.ds", "two_levels_up"),
+        ("work", "run/main.ds", "two_levels_up"),
+        ("work/run", "chain.ds", "two_levels_up"),
+        ("work/run", "down_up.ds", "two_levels_up"),
+        ("work/run/sub", "../down_up.ds", "two_levels_up"),
+        ("work/run", "one_up.ds", "one_level_up"),
+        ("work/run", "zigzag.ds", "two_levels_up"),
+        ("", "work/run/main.ds", "two_levels_up"),
+        ("lib", "../work/run/chain.ds", "two_levels_up"),
+        ("work/run/sub", "../../run/main.ds", "two_levels_up"),
+        ("work/run", "../run/zigzag.ds", "two_levels_up"),
+    ];
+    for (cwd, root, expected) in cases {
+        if !w.take() {
+            continue;
+        }
+        let cj = json!({"kind": "relative-invocation", "cwd": cwd, "root": root});
+        w.begin(|| cj.clone());
+        w.add_transitions(1);
+        if std::env::set_current_dir(top.join(cwd)).is_err() {
+            w.fail("harness:chdir", "cannot enter the working directory", cj);
+            continue;
+        }
+        let (env, _o, _e, _h) = quiet_env();
+        let r = guarded(|| duckscript::runner::run_script_file(root, sdk_context(), Some(env)));
+        match r {
+            Err(p) => w.fail("panic", &p, cj),
+            Ok(Err(e)) => w.fail("relative-invocation:run-failed", &format!("{} started in {:?}: {}", root, cwd, e), cj),
+            Ok(Ok(c)) => {
+                let got = c.variables.get("where").cloned();
+                if got.as_deref() == Some(expected) && c.variables.get("done").map(|s| s.as_str()) == Some("yes") {
+                    w.pass(true, hash64(&("relative-invocation", root)));
+                } else {
+                    w.fail("relative-invocation:wrong-file", &format!("{} started in {:?}: the include reached the file that says {:?}, the directive names the one that says {:?}", root, cwd, got, expected), cj);
+                }
+            }
+        }
+    }
+    if let Some(b) = before {
+        let _ = std::env::set_current_dir(b);
+    }
+    let _ = std::fs::remove_dir_all(&top);
+}
+
 /// What a script prints while it is being parsed (`!print`) is part of its behaviour too: an include
 /// structure prints what the pasted script prints - a file included twice prints twice. Observed on
 /// the real standard output of a child process (`dsmc libref file`), structure against pasted text.
@@ -704,6 +773,7 @@ pub fn worker(w: &mut Worker) {
     scale(w);
     parse_time_output(w);
     blocks_across_files(w);
+    relative_invocation(w);
     let rig = Rig::new();
     let dir: PathBuf = w.scratch.join("c14");
     let every = tier.pick(5usize, 1usize);
@@ -791,6 +861,9 @@ pub fn worker(w: &mut Worker) {
 }
 
 pub fn replay(case: &Value) -> Result<String, String> {
+    if case["kind"].as_str() == Some("relative-invocation") {
+        return Ok("re-run the check: the case needs the directory layout of the run's scratch directory and a change of the working directory".to_string());
+    }
     if case["kind"].as_str() == Some("blocks-across-files") {
         let dir = scratch_root().join(format!("replay-c14-blocks-{}", std::process::id()));
         let shape = case["shape"].as_str().unwrap_or("");
@@ -862,7 +935,7 @@ pub fn crash_sig(_case: &Value, kind: &str) -> String {
     kind.to_string()
 }
 
-pub const RULE: &str = "include structures: four files r.ds, d1/a.ds, d1/d2/b.ds, c.ds; every assignment of an include directive (none / one file / two files / the same file twice, listed in one directive, at the first, middle or last line) to each file such that a file only includes files later in the order (two orders: descending into and climbing out of the nested directories), unreachable files normalised away, x path style {./relative, plain relative, absolute}. Faults (on every n-th structure): each include edge pointing to a missing file; a malformed line at every (reachable file, line); a trigger_error at every (reachable file, line); two handled errors in different files (the later one is the last error: its line and its file); pairs of faults (a missing edge or a malformed line in an included file together with a malformed last line of the root file: the one that comes first in the pasted text must be reported). Oracle: parse_file(root) minus directive instructions equals parse_text of the recursively pasted text; every instruction carries the file it came from (compared as canonical paths) and its line in that file; running the file and the pasted text gives the same emit trace and variables; a missing file fails the parse with ErrorReadingFile naming that file; a malformed line fails with its kind, its own line and its own file; get_last_error_line/_source name the included file and line. Scale cases: a chain of 12/40 (thorough 150) files each including the next across two directories, a chain through files whose names differ only in letter case, one directive listing 12/100 (thorough 1000) files, an included file of 5000 (thorough 200000) lines: instruction order, file and line of every instruction. Parse-time output: 8 include shapes with !print lines (a file included once, twice on two lines, twice on one line, three times, a diamond, a nested file twice, prints only below, another file between) x relative / absolute paths, run in a child process against the pasted text run in a child process: same exit status, same standard output. Blocks across files: 11 shapes (if / while / for / fn / nested blocks opened in one file and closed in another, the directive last in its file or not, else in an included file) x relative / absolute paths: final variables of the include structure equal those of the pasted text. Six more shapes: a file defining a function / a scoped function / an alias / a label included twice (two lines, one line, a diamond). Seven shapes with files that hold nothing (zero bytes), a blank or only a comment, first / between / last in a directive and in a nested directive";
+pub const RULE: &str = "include structures: four files r.ds, d1/a.ds, d1/d2/b.ds, c.ds; every assignment of an include directive (none / one file / two files / the same file twice, listed in one directive, at the first, middle or last line) to each file such that a file only includes files later in the order (two orders: descending into and climbing out of the nested directories), unreachable files normalised away, x path style {./relative, plain relative, absolute}. Faults (on every n-th structure): each include edge pointing to a missing file; a malformed line at every (reachable file, line); a trigger_error at every (reachable file, line); two handled errors in different files (the later one is the last error: its line and its file); pairs of faults (a missing edge or a malformed line in an included file together with a malformed last line of the root file: the one that comes first in the pasted text must be reported). Oracle: parse_file(root) minus directive instructions equals parse_text of the recursively pasted text; every instruction carries the file it came from (compared as canonical paths) and its line in that file; running the file and the pasted text gives the same emit trace and variables; a missing file fails the parse with ErrorReadingFile naming that file; a malformed line fails with its kind, its own line and its own file; get_last_error_line/_source name the included file and line. Scale cases: a chain of 12/40 (thorough 150) files each including the next across two directories, a chain through files whose names differ only in letter case, one directive listing 12/100 (thorough 1000) files, an included file of 5000 (thorough 200000) lines: instruction order, file and line of every instruction. Parse-time output: 8 include shapes with !print lines (a file included once, twice on two lines, twice on one line, three times, a diamond, a nested file twice, prints only below, another file between) x relative / absolute paths, run in a child process against the pasted text run in a child process: same exit status, same standard output. Blocks across files: 11 shapes (if / while / for / fn / nested blocks opened in one file and closed in another, the directive last in its file or not, else in an included file) x relative / absolute paths: final variables of the include structure equal those of the pasted text. Six more shapes: a file defining a function / a scoped function / an alias / a label included twice (two lines, one line, a diamond). Seven shapes with files that hold nothing (zero bytes), a blank or only a comment, first / between / last in a directive and in a nested directive. Relative invocation: 12 cases of (working directory, relative path of the root, includes that climb up to three levels above it), with files of the same name and other contents on the way: the file the directive names is the one that is read";
 pub const ASSUMPTIONS: &[&str] = &["cyclic includes are outside the property (C07 probes them)", "the scratch directory is on a local file system without symlinks"];
 pub const EXHAUSTIVE: bool = true;
 pub const WALL_CAP_S: (u64, u64) = (55, 1500);
